@@ -86,6 +86,29 @@ def _gen_faults(rng, seed, tier):
             ops.append(r)
         else:
             ops.append(op)
+    # overlapped caller threads: one caller's update fails while another's is in flight
+    if len(world["minerals"]) >= 2 and rng.random() < 0.35:
+        last_t = {}
+        for op in ops:
+            if op.get("m") is not None and "t1" in op:
+                last_t[op["m"]] = max(last_t.get(op["m"], 0.0), op["t1"])
+        for _ in range(rng.randint(1, 2)):
+            ms = rng.sample(range(len(world["minerals"])), 2)
+            intervals, faults = [], {}
+            for m in ms:
+                a = last_t.get(m, 0.0)
+                b = a + rng.choice([0.05, 0.2, 0.5])
+                intervals.append([a, b])
+                last_t[m] = b
+            for m in rng.sample(ms, rng.choice([1, 1, 2])):
+                kind = rng.choice(["L_raises", "position_raises", "solver_failed", "params_key_missing"])
+                faults[str(m)] = _mk_fault(rng, kind)
+            ops.append({"op": "overlap", "ms": ms, "intervals": intervals, "faults": faults,
+                        "baton": [rng.randrange(6) for _ in range(rng.randint(8, 120))]})
+            # the failed intervals are retried fault-free, sequentially
+            for m, iv in zip(ms, intervals):
+                if str(m) in faults:
+                    ops.append({"op": "update", "m": m, "t0": iv[0], "t1": iv[1]})
     # bulk updates failing part-way (minerals sharing environment 0)
     group = [j for j, m in enumerate(world["minerals"]) if m["flow"] == 0]
     if len(group) >= 2 and rng.random() < 0.5:
@@ -344,6 +367,14 @@ class C07Monitor:
             self._bulk(world, i, op, rec)
             return
         subs = rec.get("sub") or [rec]
+        if rec["op"] == "overlap":
+            # callers that completed are accounted first, so that the reference model is in
+            # sync when the failed callers' minerals are compared against it
+            subs = sorted(subs, key=lambda r: r.get("status") != "ok")
+            self.inc("overlap_ops")
+            self.inc("overlap_baton_switches", rec.get("switches", 0))
+            if any(r.get("fault") and r.get("fired") for r in subs):
+                self.inc("faults_fired_while_another_caller_in_flight")
         for r in subs:
             if r["op"] != "update":
                 continue
@@ -542,7 +573,7 @@ PROBES = ["rejections_observed.zeroL", "rejections_observed.rotation"] + \
          [f"fault_fired_in_solver_loop.{k}" for k in
           ("L_raises", "position_raises", "regime_raises", "solver_failed", "params_key_missing",
            "regime_unsupported", "L_malformed", "L_nonfinite")] + \
-         ["bulk_updates_failed_part_way", "fault_fired.phase_not_in_assemblage", "recoveries_checked", "rejections_observed",
+         ["faults_fired_while_another_caller_in_flight", "bulk_updates_failed_part_way", "fault_fired.phase_not_in_assemblage", "recoveries_checked", "rejections_observed",
           "null_checked.zeroL", "null_checked.visc", "null_checked.M0",
           "null_with_grains_below_threshold", "sweeps_exhaustive"]
 SHRINK_BUDGET = 150
